@@ -101,7 +101,8 @@ DETECTED = {
     'C04-g': ['C04: H04b-single-instance target-knows-and-enables (SINGLE_INSTANCE moved into the quick tier after the '
               'miss; it was explored in the thorough tier only)'],
     'C14-g': ['C14: H14c strategy-order-with-pending-starts (three processes of one sequence; added after the miss)'],
-    'C19-g': [],
+    'C19-g': ['C19: H19a repeated-prediction-is-the-same with the first process EXITED before the prediction (added '
+              'after the miss)'],
 }
 for line in open(sys.argv[1]):
     m = re.match(r'(C\d\d-\w): without=\[(.*?)\] with=\[(.*?)\] suite=\[(.*)\]', line.strip())
